@@ -8,7 +8,7 @@ import tempfile
 from . import common, tla
 
 
-def validate(run, module, cfg, items, sep=None, max_lines=20000):
+def validate(run, module, cfg, items, sep=None, max_lines=20000, max_rejections=4):
     """items: [(trace_id, [event dicts])]. Returns {trace_id: (index_in_trace, event)} for rejected ones.
     Adds TLC state counts and the number of accepted traces to `run`."""
     rejected = {}
@@ -50,4 +50,6 @@ def validate(run, module, cfg, items, sep=None, max_lines=20000):
         run.traces += idx
         rejected[bad] = (pos[hwm], lines[hwm])
         pending = pending[idx + 1:]
+        if len(rejected) >= max_rejections:
+            break          # enough evidence; the rest of the batch is left unvalidated
     return rejected
